@@ -23,6 +23,12 @@ __all__ = [
 FAILURE_CODE = 422
 
 
+def _split_first(prefix: str, identifier: str, delimiter: str) -> tuple[str, str]:
+    """Split at the first delimiter, since URL rules match the prefix part greedily."""
+    prefix, _, identifier = f"{prefix}{delimiter}{identifier}".partition(delimiter)
+    return prefix, identifier
+
+
 def get_flask_blueprint(converter: Converter, **kwargs: Any) -> flask.Blueprint:
     """Get a blueprint for :class:`flask.Flask`.
 
@@ -77,6 +83,7 @@ def get_flask_blueprint(converter: Converter, **kwargs: Any) -> flask.Blueprint:
     @blueprint.route(f"/<prefix>{converter.delimiter}<path:identifier>")
     def resolve(prefix: str, identifier: str) -> Response:
         """Resolve a CURIE."""
+        prefix, identifier = _split_first(prefix, identifier, converter.delimiter)
         location = converter.expand_pair(prefix, identifier)
         if location is None:
             prefixes = "".join(f"\n- {p}" for p in sorted(converter.get_prefixes()))
@@ -210,7 +217,7 @@ def get_fastapi_router(converter: Converter, **kwargs: Any) -> fastapi.APIRouter
 
     api_router = APIRouter(**kwargs)
 
-    @api_router.get(f"/{{prefix}}{converter.delimiter}{{identifier}}")
+    @api_router.get(f"/{{prefix}}{converter.delimiter}{{identifier:path}}")
     def resolve(
         prefix: str = Path(
             title="Prefix",
@@ -223,6 +230,7 @@ def get_fastapi_router(converter: Converter, **kwargs: Any) -> fastapi.APIRouter
         ),
     ) -> RedirectResponse:
         """Resolve a CURIE."""
+        prefix, identifier = _split_first(prefix, identifier, converter.delimiter)
         location = converter.expand_pair(prefix, identifier)
         if location is None:
             prefixes = ", ".join(sorted(converter.get_prefixes()))
